@@ -66,7 +66,7 @@ func argsOf(want *m.Step) m.Step {
 }
 
 // replayOne executes one behaviour on a fresh engine.
-func replayOne(beh []m.Step, mode string) (o outcome) {
+func replayOne(beh []m.Step, mode string, scope map[string]bool) (o outcome) {
 	e, err := newEngine(mode)
 	if err != nil {
 		o.harness = err
@@ -102,7 +102,14 @@ func replayOne(beh []m.Step, mode string) (o outcome) {
 			o.mm = &mismatch{Mode: mode, Behaviour: beh[:i+1], Step: i, What: "read paths disagree: " + strings.Join(problems, "; "), Got: &got}
 			return o
 		}
-		if d := m.Diff(want, &got, e.HasIndexQueries()); d != "" {
+		sc := scope
+		if !e.HasIndexQueries() && sc["probes"] {
+			sc = map[string]bool{}
+			for k, v := range scope {
+				sc[k] = v && k != "probes"
+			}
+		}
+		if d := m.Diff(want, &got, sc); d != "" {
 			o.mm = &mismatch{Mode: mode, Behaviour: beh[:i+1], Step: i, What: d, Got: &got}
 			return o
 		}
@@ -132,7 +139,12 @@ func cmdReplay(args []string) int {
 	mode := fs.String("mode", "db", "db | leader")
 	workers := fs.Int("workers", 12, "")
 	maxBad := fs.Int("maxbad", 25, "stop after this many mismatching behaviours")
+	cmp := fs.String("cmp", "res,recs,lv", "aspects to compare: res,recs,lv,idx,shadow,nf,probes")
 	_ = fs.Parse(args)
+	scope := map[string]bool{}
+	for _, c := range strings.Split(*cmp, ",") {
+		scope[strings.TrimSpace(c)] = true
+	}
 	m.Quiet()
 	f, err := os.Open(*in)
 	if err != nil {
@@ -175,10 +187,10 @@ func cmdReplay(args []string) int {
 					mu.Unlock()
 					continue
 				}
-				o := replayOne(beh, *mode)
+				o := replayOne(beh, *mode, scope)
 				if o.mm != nil {
 					// only a mismatch that reproduces is reported
-					o2 := replayOne(beh, *mode)
+					o2 := replayOne(beh, *mode, scope)
 					if o2.mm == nil || o2.mm.Step != o.mm.Step {
 						o.harness = fmt.Errorf("mismatch did not reproduce: %s", o.mm.What)
 					}
